@@ -190,6 +190,66 @@ def q1_no_self_comparison(F, r):
         r.fail("comparison floor", f"only {n} comparison sites scanned in the checker")
 
 
+def _opname(fn, op):
+    cur = op
+    for _ in range(6):
+        if not mir.is_place(cur) or cur["p"]:
+            return None
+        nm = fn["names"].get(str(cur["l"]))
+        if nm:
+            return nm
+        ds = mir.defs(fn).get(cur["l"], [])
+        if len(ds) != 1 or ds[0][0] != "s" or ds[0][3]["r"]["k"] not in ("use", "cast"):
+            return None
+        cur = ds[0][3]["r"]["o"][0]
+    return None
+
+
+LIMIT_KINDS = {"distance": ("distance",), "duration": ("duration",), "size": ("count",)}
+
+
+def l1_limit_rules(F, r):
+    """checker: a limit breach is reported iff the tour's own value exceeds the limit — distance vs max_distance, duration vs max_duration, number of job ACTIVITIES vs tour_size"""
+    from . import c01
+    root = CHK + "::limits::check_shift_limits"
+    if root not in F.fns:
+        raise AnchorError(root)
+    found = {}
+    for g in F.family(root):
+        fn = F.fns[g]
+        for bi, si, st in mir.stmts(fn):
+            rv = st["r"]
+            if rv["k"] != "bin" or rv.get("op") not in ("Lt", "Gt", "Le", "Ge"):
+                continue
+            names = [_opname(fn, o) for o in rv["o"]]
+            lim = [i for i, n in enumerate(names) if n and ("max_" in n or "limit" in n)]
+            if len(lim) != 1:
+                continue
+            li = lim[0]
+            lname = names[li]
+            kind = "distance" if "distance" in lname else ("duration" if "duration" in lname or "time" in lname else ("size" if "size" in lname else None))
+            if kind is None:
+                continue
+            op = rv["op"] if li == 1 else {"Lt": "Gt", "Gt": "Lt", "Le": "Ge", "Ge": "Le"}[rv["op"]]       # value OP limit
+            vt = c01._toks(fn, rv["o"][1 - li])
+            inst = f"check_shift_limits: {kind}"
+            found[kind] = True
+            want = LIMIT_KINDS[kind]
+            wrong = [k for k, w in LIMIT_KINDS.items() if k != kind and any(x in vt for x in w)]
+            if not any(x in vt for x in want) or wrong:
+                r.fail(inst, f"the {lname} limit is compared with a value derived from {sorted(vt)[:5]}: not the tour's {kind}", F.loc(g, st["ln"]))
+            elif kind == "size" and not ("activities" in vt or "flat_map" in vt):
+                r.fail(inst, "the tour size limit is compared with a count of STOPS, not of job activities: a stop with several activities (same location, clustering) hides a breach", F.loc(g, st["ln"]))
+            elif op != "Gt":
+                r.fail(inst, f"a breach is reported on `value {op} limit`: a tour exactly at its limit is rejected or one above it accepted", F.loc(g, st["ln"]))
+            else:
+                r.ok(inst, f"breach iff tour {kind} > {lname}")
+    if not found:
+        r.ok("check_shift_limits", "not decided: limits are not held in variables named max_* / *limit*")
+    elif set(found) != set(LIMIT_KINDS):
+        r.fail("check_shift_limits: coverage", f"only {sorted(found)} of distance / duration / size limits are compared", F.loc(root))
+
+
 def run(ctx):
     ctx.explanation = (
         "Structural clauses of `the checker rejects injected breaches`: every rule function of the checker (return type Result<(), GenericError|Vec<..>>) is "
@@ -206,5 +266,6 @@ def run(ctx):
         ctx.run("C01-O3", "can_fit(capacity, load) iff load <= capacity in every dimension", c01.o3_can_fit_law, floor=7)
     except (ImportError, AttributeError):
         pass
+    ctx.run("C12-L1", "limit rules: breach iff the tour's own distance / duration / activity count exceeds the limit", l1_limit_rules, floor=1)
     ctx.run("C12-Q1", "no checker comparison relates a value to itself (a constant verdict)", q1_no_self_comparison, floor=1)
     ctx.run("C12-A3", "every leaf rule can fail: its error-producing sites are reachable", a3_rules_can_fail, floor=10)
